@@ -63,17 +63,23 @@ def deltaEqG {V : Type} [LT V] [DecidableLT V] [Sub V] (threshold a b : V) : Boo
   let diff := if a < b then b - a else a - b
   decide (diff < threshold)
 
-/-- `DeltaEqChecker<SingleObjective>::eq` on exact double values, as far as the *class* of the
-difference decides it (C09: `a - b` is the derived operator, `<` is `partial_cmp == Some(Less)`):
-a NaN or +inf difference is never `< threshold`, a −inf difference is below every legal threshold;
-for a finite difference the rounded value would be needed (`none`). -/
+/-- `DeltaEqChecker<SingleObjective>::eq` on exact double values, as far as it can be decided
+without knowing how a non-zero finite difference rounds (C09: `a - b` is the derived operator,
+`<` is `partial_cmp == Some(Less)`): equal finite values have the exact difference 0; a NaN or
++inf difference is never `< threshold`; a −inf difference is below every legal threshold;
+for any other finite difference the rounded value would be needed (`none`). -/
 def deltaEqObj (threshold a b : Objective.F64) : Option Bool :=
-  let diff := if Objective.objLt a b then Objective.subC b a else Objective.subC a b
-  match diff with
-  | .nan => some false
-  | .pinf => some false
-  | .ninf => some (Objective.legal threshold)
-  | .fin => none
+  match a, b with
+  | .fin x, .fin y =>
+    if x = y then some (Objective.objLt (.fin 0) threshold)
+    else if (if Objective.objLt a b then Objective.subC b a else Objective.subC a b) = .pinf then some false
+    else none
+  | _, _ =>
+    match (if Objective.objLt a b then Objective.subC b a else Objective.subC a b) with
+    | .nan => some false
+    | .pinf => some false
+    | .ninf => some (Objective.legal threshold)
+    | .fin => none
 
 /-- One evaluation: `changed = match previous { Some(p) => !checker.eq(current, p), None => true };
 if changed { *previous = Some(current) }`. Returns the verdict and the new `Previous`. -/
@@ -103,6 +109,177 @@ def lastReported {V : Type} : List V → List Bool → Option V
     | some r => some r
     | none => if b then some v else none
   | _, _ => none
+
+/-! ### ChangeOf inside a `State`: `init`, re-initialisation, several conditions, scopes
+
+`ChangeOf::init` is `state.insert(Previous::<L>::default())` — it always (re)sets the remembered
+value in the TOP registry; `evaluate` borrows `Previous<L>` from the innermost registry that holds
+one (`Err` if none does). The state is keyed by the lens type `L` (fix f8eea3e). `Loop::execute`
+re-initialises its condition on every entry; `Scope::execute` runs `body.init` and `body.execute`
+in a child registry that is dropped afterwards. -/
+
+/-- One condition with explicit (re-)initialisations: history entries are `none` = `init`,
+`some v` = an evaluation observing `v`. The slot is `none` while no `Previous` state exists
+(then `evaluate` errs: output `none`). -/
+def changeOfRunR {V : Type} (eqv : V → V → Bool) : Option (Option V) → List (Option V) → List (Option Bool)
+  | _, [] => []
+  | _, none :: es => changeOfRunR eqv (some none) es
+  | none, some _ :: es => none :: changeOfRunR eqv none es
+  | some prev, some v :: es =>
+    let r := changeOfStep eqv prev v
+    some r.1 :: changeOfRunR eqv (some r.2) es
+
+/-- A ChangeOf condition: which lens it observes, under which key its `Previous` state is stored
+(in the code: the lens type, `Previous<L>`) and its checker (`none` = `PartialEqChecker`,
+`some t` = `DeltaEqChecker` with threshold `t`). -/
+structure CondSpec where
+  lens : Nat
+  key : Nat
+  th : Option Nat
+
+def CondSpec.eqv (c : CondSpec) : Nat → Nat → Bool :=
+  match c.th with
+  | none => partialEq
+  | some t => deltaEq t
+
+/-- One registry level: key ↦ `Previous` (absent = `none`). -/
+abbrev Frame := Nat → Option (Option Nat)
+
+def upd {α : Type} (f : Nat → α) (k : Nat) (a : α) : Nat → α := fun x => if x = k then a else f x
+
+/-- `vals`: the observed states (they live in the root registry); `stack`: registries, innermost first. -/
+structure MSt where
+  vals : Nat → Nat
+  stack : List Frame
+
+/-- `try_borrow_value_mut`: the innermost registry that contains the key. -/
+def findSlot : List Frame → Nat → Option (Option Nat)
+  | [], _ => none
+  | f :: fs, k =>
+    match f k with
+    | some p => some p
+    | none => findSlot fs k
+
+def writeSlot : List Frame → Nat → Option Nat → List Frame
+  | [], _, _ => []
+  | f :: fs, k, p =>
+    match f k with
+    | some _ => upd f k (some p) :: fs
+    | none => f :: writeSlot fs k p
+
+/-- `state.insert(Previous::default())`: into the top registry. -/
+def initSlot : List Frame → Nat → List Frame
+  | [], _ => []
+  | f :: fs, k => upd f k (some none) :: fs
+
+inductive Ev where
+  | set (lens v : Nat)     -- the observed state changes
+  | eval (c : Nat)         -- condition `c` is evaluated
+  | init (c : Nat)         -- condition `c` is (re-)initialised
+  deriving DecidableEq, Repr
+
+/-- One event; an evaluation yields `(c, some verdict)` or `(c, none)` for `Err`. -/
+def evStep (condOf : Nat → CondSpec) (s : MSt) : Ev → MSt × Option (Nat × Option Bool)
+  | .set l v => ({ s with vals := upd s.vals l v }, none)
+  | .init c => ({ s with stack := initSlot s.stack (condOf c).key }, none)
+  | .eval c =>
+    let k := (condOf c).key
+    match findSlot s.stack k with
+    | none => (s, some (c, none))
+    | some prev =>
+      let r := changeOfStep (condOf c).eqv prev (s.vals (condOf c).lens)
+      ({ s with stack := writeSlot s.stack k r.2 }, some (c, some r.1))
+
+def runFlat (condOf : Nat → CondSpec) (s : MSt) : List Ev → List (Nat × Option Bool)
+  | [] => []
+  | e :: es =>
+    let r := evStep condOf s e
+    match r.2 with
+    | some o => o :: runFlat condOf r.1 es
+    | none => runFlat condOf r.1 es
+
+mutual
+  inductive Item where
+    | ev (e : Ev)
+    | scope (body : Items)
+  inductive Items where
+    | nil
+    | cons (i : Item) (is : Items)
+end
+
+/-- `Block::init`: every child's `init`, in order. A component that evaluates a condition
+initialises it (as `Loop` and `Branch` do); `Scope::init` does nothing. -/
+def initItems (condOf : Nat → CondSpec) : Items → MSt → MSt
+  | .nil, s => s
+  | .cons (.ev (.eval c)) is, s => initItems condOf is (evStep condOf s (.init c)).1
+  | .cons _ is, s => initItems condOf is s
+
+mutual
+  def execItem (condOf : Nat → CondSpec) : Item → MSt → List (Nat × Option Bool) → MSt × List (Nat × Option Bool)
+    | .ev e, s, log =>
+      let r := evStep condOf s e
+      match r.2 with
+      | some o => (r.1, log ++ [o])
+      | none => (r.1, log)
+    | .scope body, s, log =>
+      -- `with_inner_state`: child registry, `body.init`, `body.execute`, child dropped
+      let s1 : MSt := { s with stack := (fun _ => none) :: s.stack }
+      let s2 := initItems condOf body s1
+      let r := execItems condOf body s2 log
+      ({ r.1 with stack := r.1.stack.tail }, r.2)
+  def execItems (condOf : Nat → CondSpec) : Items → MSt → List (Nat × Option Bool) → MSt × List (Nat × Option Bool)
+    | .nil, s, log => (s, log)
+    | .cons i is, s, log =>
+      let r := execItem condOf i s log
+      execItems condOf is r.1 r.2
+end
+
+/-- `root.init(..); root.execute(..)` on a fresh state whose observed values are all 0. -/
+def runItems (condOf : Nat → CondSpec) (items : Items) : List (Nat × Option Bool) :=
+  let s0 : MSt := { vals := fun _ => 0, stack := [fun _ => none] }
+  (execItems condOf items (initItems condOf items s0) []).2
+
+def Items.ofList : List Ev → Items
+  | [] => .nil
+  | e :: es => .cons (.ev e) (Items.ofList es)
+
+/-- Specification side: the history condition `c` sees — its own inits and the values it observes. -/
+def histOf (condOf : Nat → CondSpec) (c : Nat) (vals : Nat → Nat) : List Ev → List (Option Nat)
+  | [] => []
+  | .set l v :: es => histOf condOf c (upd vals l v) es
+  | .init c' :: es => if c' = c then none :: histOf condOf c vals es else histOf condOf c vals es
+  | .eval c' :: es =>
+    if c' = c then some (vals (condOf c).lens) :: histOf condOf c vals es else histOf condOf c vals es
+
+/-- The conditions occurring in a list of events. -/
+def condsIn : List Ev → List Nat
+  | [] => []
+  | .set _ _ :: es => condsIn es
+  | .init c :: es => c :: condsIn es
+  | .eval c :: es => c :: condsIn es
+
+/-- A real `Loop` whose condition is a ChangeOf over an observed value, entered `entries` times;
+the body writes the next value of `script` (if any) and counts passes. Returns passes per entry.
+Every entry re-initialises the condition (`prev = none`). -/
+def loopChangeGo (eqv : Nat → Nat → Bool) : Nat → Option Nat → Nat → List Nat → Nat → Option (Nat × Nat × List Nat)
+  | 0, _, _, _, _ => none
+  | fuel + 1, prev, value, script, passes =>
+    let r := changeOfStep eqv prev value
+    if r.1 then
+      match script with
+      | v :: rest => loopChangeGo eqv fuel r.2 v rest (passes + 1)
+      | [] => loopChangeGo eqv fuel r.2 value [] (passes + 1)
+    else some (passes, value, script)
+
+def loopChangeRun (eqv : Nat → Nat → Bool) : Nat → Nat → List Nat → Option (List Nat)
+  | 0, _, _ => some []
+  | entries + 1, value, script =>
+    match loopChangeGo eqv (script.length + 3) none value script 0 with
+    | none => none
+    | some (passes, value', script') =>
+      match loopChangeRun eqv entries value' script' with
+      | none => none
+      | some ps => some (passes :: ps)
 
 /-! ### And / Or / Not  (logical.rs) over scripted operands
 
